@@ -17,6 +17,9 @@ import (
 //
 //	0 unsigned, 1 signed (v > M/2 printed as v-M), 2 a congruent spelling >= M or <= -M, 4 within 32 bits where possible
 func spellField(v, m int, spell int, r Rand) string {
+	if v == 0 && spell != 0 && r.Intn(4) == 0 {
+		return []string{"-0", "-00", "00", "000"}[r.Intn(4)] // zero has many spellings
+	}
 	switch spell {
 	case 1:
 		if v > m/2 {
@@ -94,6 +97,9 @@ var metaBlocks = [][]string{
 	{";name  spaced  name ", ";author\tTabbed", ";strategy ", ";strategy   "},
 	{";NAME Upper", ";Author Mixed", ";STRATEGY shout", ";name second name"},
 	{";strategy", ";strategy"},
+	{";name \"", ";author \"", ";strategy \""},
+	{";name \"quoted name\"", ";author 'single'", ";strategy \"\"", ";name \"\"\""},
+	{";name \\", ";author \t", ";strategy ;", ";name ;name"},
 }
 
 // comment lines between the instructions: plain ones, metadata keywords in the middle of the file, multi-byte text
